@@ -274,20 +274,29 @@ def part_callforms(rep):
         raise Machinery("call-form enumeration produced only %d cells" % len(cells))
     for i, c in enumerate(cells):
         c["id"] = i
-    rep.spaces.append({"space": "call form x function kind, plus new-return rules and constructor chains", "cases": len(cells),
-                       "complete": True})
-    results = engine.run_cases(pid, cells, driver="checks.c08_driver:call_driver", tag="calleng")
+    rep.spaces.append({"space": "call form x function kind, plus new-return rules and constructor chains",
+                       "cases": sum(1 for c in cells if c["form"] != "tv"), "complete": True})
+    ntv = sum(1 for c in cells if c["form"] == "tv")
+    if ntv < 300:
+        raise Machinery("this-value enumeration produced only %d cells" % ntv)
+    rep.spaces.append({"space": "kind of the this-value x call form taking an explicit this x function kind (%s grid)" % rep.tier,
+                       "cases": ntv, "complete": True})
+    results = engine.run_cases(pid, cells, driver="checks.c08_driver:cell_driver", tag="calleng")
     byid = {c["id"]: c for c in cells}
     dv = sorted(rep.findings)          # the chain cells also meet object-model deviations
     recs = [{"id": r["id"], "cell": {k: v for k, v in byid[r["id"]].items() if k != "id"}, "obs": r["obs"], "dv": dv}
             for r in results]
-    verdicts, st, tr, wall = tlc_judge(pid, "C08", recs, CALL_JUDGE_CFG, tag="calljudge", shards=2)
+    verdicts, st, tr, wall = tlc_judge(pid, "C08", recs, CALL_JUDGE_CFG, tag="calljudge",
+                                         shards=min(16, max(2, len(recs) // 100)))
     rep.add_judge(len(recs), st, tr)
     if len(verdicts) != len(recs):
         raise Machinery("call-form judge returned %d verdicts for %d cells" % (len(verdicts), len(recs)))
     for v in verdicts:
         c = byid[v["id"]]
-        label = "call form %s x kind %s%s" % (c["form"], c["kind"], (" return " + c["ret"]) if c.get("ret") else "")
+        if c["form"] == "tv":
+            label = "this-value %s through %s x kind %s" % (c["ret"], c["via"], c["kind"])
+        else:
+            label = "call form %s x kind %s%s" % (c["form"], c["kind"], (" return " + c["ret"]) if c.get("ret") else "")
         for m in v["mis"]:
             rep.mismatch(label + " : " + m["aspect"], {"expected": m["exp"], "actual": m["act"], "cell": c, "source": v.get("src", "")},
                          dev=m["dev"] if m["v"] == "known" else "")
